@@ -10,8 +10,10 @@ C03 driver.  One `fmt` case = one source text with what the real code did:
 Spec-on-impl (whole language): Parse f1 has no error ∧ f2 = f1 byte for byte  — evaluated here on the bytes.
 Model-vs-impl (fragment): fmtFile ast = f1, normFile ast = ast2 (layout included), fmtFile ast2 = f2.
 
-Signature of a violation: `idem/<cause>[+model]` where <cause> is the first failing clause of the model's `stableFile`
-(fragment) or of the harness' AST features (outside the fragment); `+model` is appended when the model itself
+Signature of a violation: `idem/<cause>[+model]`.  When the first difference of the two passes lies strictly inside a
+block string / value string / comment / import / key string the cause says so (`in-block-string`, …: never a listed
+finding); otherwise (layout level) <cause> is the first failing clause of the model's `stableFile` (fragment) or of the
+harness' AST features (outside the fragment); `+model` is appended when the model itself
 disagrees with the implementation on that case, so that a known-finding entry keyed to `idem/<cause>` never hides
 a modelling error.
 -/
@@ -69,13 +71,23 @@ def handleC03 (j : Json) : Except String Verdict := do
   let f2? : Option (List UInt8) := (getBytes o "f2").toOption
   let model ← modelCheck o f1 f2?
   let modelTag := match model with | some _ => "+model" | none => ""
-  let cause : String := match o.getObjVal? "ast" with
+  let layoutCause : String := match o.getObjVal? "ast" with
     | .ok ja => match nodeOf ja with
         | .ok a => match whyV true a with
             | some w => w
             | none => featCause o
         | .error _ => featCause o
     | .error _ => featCause o
+  -- where the two passes first differ (harness: innermost node of Parse(f1) strictly containing the first differing
+  -- byte).  The listed findings are layout-level, or CRLF inside a block string / key; a difference inside a string,
+  -- block string, comment or import gets its own signature, whatever else the input contains.
+  let cause : String := match (getStr o "dat").toOption.getD "" with
+    | "block-string" => if hasFeat o "af" "text:crlf-block-string" then "crlf-block-string" else "in-block-string"
+    | "value-string" => "in-value-string"
+    | "comment" => "in-comment"
+    | "import" => "in-import"
+    | "key-string" => if hasFeat o "af" "text:backslash-crlf" then "backslash-crlf" else "in-key-string"
+    | _ => layoutCause
   match getStr o "p2err" with
   | .ok e =>
     return .specfalse s!"reparse-error/{cause}{modelTag}" s!"Parse(Format(Parse s)) fails: {e}; s={showBytes src}; formatted={showBytes f1}"
